@@ -97,6 +97,8 @@ def mkarg(tok):
         return d
     if tok.startswith("B:"):
         return so.mkvec_float(tok[2:]).scale(0.07)
+    if tok.startswith("F:"):
+        return float(tok[2:])
     return so.mkvec_float(tok)
 
 
@@ -119,6 +121,24 @@ for _m in ("add", "subtract", "dot", "equal", "not_equal", "isclose", "deltaphi"
            "deltaR2", "deltaangle", "deltaeta", "deltaRapidityPhi", "deltaRapidityPhi2", "boost_p4", "boostCM_of_p4"):
     METHOD_TEMPLATES[_m] = [f"v.{_m}(w)"]
 API_ARGS = "v, w, u, b, T4, T9, T16"
+# operator / numpy-function forms that compile at the pinned commit (numpy.equal / not_equal / isclose / allclose do not: outside the numba-supported API)
+OPERATOR_EXPRS = ["v + w", "v - w", "v * 2.5", "2.5 * v", "v / 2.5", "-v", "+v", "abs(v)", "v ** 2", "v ** 3", "v ** 0.5", "v == w", "v != w", "v @ w", "bool(v)",
+                  "numpy.absolute(v)", "numpy.add(v, w)", "numpy.subtract(v, w)", "numpy.multiply(v, 2.5)", "numpy.multiply(2.5, v)", "numpy.negative(v)",
+                  "numpy.positive(v)", "numpy.square(v)", "numpy.sqrt(v)", "numpy.cbrt(v)", "numpy.power(v, 2)", "numpy.power(v, 3)", "numpy.true_divide(v, 2.5)",
+                  "numpy.matmul(v, w)"]
+
+
+def constructor_exprs():
+    """vector.obj(...) for every documented name set in every mix of generic and momentum spellings (270 calls; all compile at the pinned commit)"""
+    out = []
+    for az in (("x", "y"), ("rho", "phi"), ("px", "py"), ("pt", "phi"), ("x", "py"), ("px", "y")):
+        for lon in (None, "z", "theta", "eta", "pz"):
+            for tmp in (None, "t", "tau", "E", "e", "energy", "M", "m", "mass"):
+                if tmp and not lon:
+                    continue
+                kw = [f"{az[0]}=a", f"{az[1]}=b"] + ([f"{lon}=c"] if lon else []) + ([f"{tmp}=d"] if tmp else [])
+                out.append("vector.obj(" + ", ".join(kw) + ")")
+    return out
 
 
 def api_expressions(tok):
@@ -171,11 +191,26 @@ def api_jobs(r, tier):
                 ok.append(e)
             except Exception:  # noqa: BLE001
                 pass
+        import numpy
+        import vector
+        for e in OPERATOR_EXPRS:            # operators and numpy functions on vectors inside compiled code
+            try:
+                eval(e, {"numpy": numpy, "vector": vector}, env)
+                ok.append(e)
+            except Exception:  # noqa: BLE001
+                pass
         n_expr += len(ok)
         size = 8
         for i in range(0, len(ok), size):
             chunk = ok[i:i + size]
-            jobs.append((f"def f({API_ARGS}):\n    return ({', '.join(chunk)},)\n", toks))
+            jobs.append((f"import numpy, vector\ndef f({API_ARGS}):\n    return ({', '.join(chunk)},)\n", toks))
+    # constructors inside compiled code
+    ce = constructor_exprs()
+    if tier != "thorough":
+        ce = r.sample(ce, 48)
+    n_expr += len(ce)
+    for i in range(0, len(ce), 12):
+        jobs.append((f"import numpy, vector\ndef f(a, b, c, d):\n    return ({', '.join(ce[i:i + 12])},)\n", ["F:1.5", "F:0.75", "F:-0.5", "F:9.25"]))
     return jobs, n_expr, sorted(untemplated)
 
 
@@ -261,7 +296,11 @@ def split_top(body):
 def same(a, b):
     if type(a) is not type(b) or (isinstance(a, tuple) and len(a) != len(b)):
         return False
+    if isinstance(a, tuple) and a and (a[0] == "raises" or (b and b[0] == "raises")):
+        return a == b
     if isinstance(a, tuple) and a and a[0] == "s":
+        if not (b and b[0] == "s"):
+            return False
         x, y = a[1], b[1]
         return x == y or (x != x and y != y) or abs(x - y) <= 1e-12 * max(1.0, abs(x), abs(y))
     if isinstance(a, tuple) and len(a) == 3 and isinstance(a[2], list):
@@ -345,7 +384,8 @@ def correspondence(ctx):
         for src, toks, interp, comp in ares:
             if not same(interp, comp):
                 body = src.split("return (", 1)[1].rsplit(",)", 1)[0]
-                single += [(f"def f({API_ARGS}):\n    return {e}\n", toks) for e in split_top(body)]
+                head = src.split("return (", 1)[0]
+                single += [(head + f"return {e}\n", toks) for e in split_top(body)]
         results += pool.map(probe_worker, single, chunksize=1) if single else []
         akjobs = [(src, r.choice(C.SIG4), ctx.seed + k) for k, src in enumerate(AK_PROBES)]
         akres = pool.map(ak_probe_worker, akjobs)
